@@ -150,7 +150,14 @@ def representatives(kind):
         for rank, (pfx, n) in enumerate([(b'edpk', 32), (b'sppk', 33), (b'p2pk', 33), (b'BLpk', 48)]):
             for fill in (0x02, 0x03, 0xF0):
                 pl = bytes([fill] * n)
-                out.append(((rank, pl), _b58(pfx, pl)))
+                out.append(((rank, pl[1:] if pfx == b'p2pk' else pl), _b58(pfx, pl)))
+        # P-256 keys are ordered by their X coordinate (KeyType.__lt__ docstring: the leading 02/03 parity byte does not take part):
+        # two keys whose parity bytes order the other way round than their coordinates
+        for pl in (b'\x03' + bytes(31) + b'\x01', b'\x02' + bytes([0xFF] * 32)):
+            out.append(((2, pl[1:]), _b58(b'p2pk', pl)))
+        # secp256k1 keys: the parity byte does take part
+        for pl in (b'\x03' + bytes(31) + b'\x01', b'\x02' + bytes([0xFF] * 32)):
+            out.append(((1, pl), _b58(b'sppk', pl)))
         return out
     if kind == 'chain_id':
         return [((0, pl), _b58(b'Net', pl)) for pl in (bytes(4), bytes([0, 0, 1, 0]), bytes([0x7F] * 4), bytes([0xFF] * 4))]
